@@ -1054,7 +1054,11 @@ def check_histories(ctx, prop: str, histories: List[List[dict]], label: str):
     import core
     import json
 
+    n_failed = 0
     for r, d in run_batch(ctx, histories, FOCUS[prop]):
+        if n_failed >= 12:
+            ctx.notes.append("stopped comparing after %d failing histories" % n_failed)
+            break
         ctx.evaluations += 1
         ctx.corr_cases += 1
         ctx.count("history_length", str(min(40, len(r.resolved)) // 5 * 5) + "+")
@@ -1073,11 +1077,12 @@ def check_histories(ctx, prop: str, histories: List[List[dict]], label: str):
                 break
         if failed:
             name = failed[0]
+            n_failed += 1
 
             def still(h, name=name):
                 x = first_oracle_failure(prop, h)
                 return x is not None and x[0] == name
-            small = minimise(r.resolved, still)
+            small = minimise(r.resolved, still, budget=80 if n_failed <= 3 else 0)
             x = first_oracle_failure(prop, small)
             msg = x[1] if x else failed[1]
             ctx.fail("failing-input", "%s oracle '%s': %s ; history %s" % (prop, name, msg, json.dumps(x[2].resolved if x else small)),
@@ -1086,6 +1091,7 @@ def check_histories(ctx, prop: str, histories: List[List[dict]], label: str):
         if mine:
             ctx.corr_disagreements += 1
             if not failed:
+                n_failed += 1
                 ctx.fail("no-failing-input-found",
                          "correspondence Model/Stream.v vs object_stream.py (%s, %s) broke: %s ; history %s"
                          % (prop, label, mine[0][:500], json.dumps(r.resolved)),
